@@ -176,9 +176,9 @@ def run_impl(text, source, horizon, k, way):
             value = list(itertools.islice(iter(value), k))
         status = 'ok'
     except yq.Horizon:
-        status = 'horizon'
+        status, value = 'horizon', None
     except Exception as e:
-        status = 'error:' + type(e).__name__
+        status, value = 'error:' + type(e).__name__, None
     pulls, ticks = src.pulls, len(log)          # read before lazy elements of the result are unfolded for comparison
     return status, unfold(value), pulls, ticks
 
@@ -195,7 +195,7 @@ def unfold(v):
 
 
 def verdict(ops, source, k, way):
-    """None (out of domain) or (ok, kind, detail, status, dpulls)."""
+    """(None, reason) when out of domain, else ((ok, kind of failure, detail, status, pulls - model pulls), '')."""
     m = run_model(ops, source, k, way)
     if m[0] == 'ood':
         return None, m[1]
@@ -259,6 +259,11 @@ def job(tier, j, njobs):
                 res.evaluations += 1
                 res.transitions += len(ops)
                 ok, kind, detail, status, dpulls = v
+                if not ok:
+                    res.nontrivial += 1
+                    res.outcomes['over the bound (%s)' % status.split(':')[0]] += 1
+                    res.fail(blame(ops, source, k, way, kind), case, '%s on %s: %s' % (text, source, detail))
+                    continue
                 if status.startswith('error'):
                     res.outcomes['implementation raised where the model has a value (C13 matter)'] += 1
                     continue
@@ -269,9 +274,7 @@ def job(tier, j, njobs):
                         res.notes.append('%s on %s: %s' % (text, source, status[:160]))
                     continue
                 res.nontrivial += 1
-                res.outcomes['%s: pulls = model %+d' % (way, dpulls) if status == 'ok' else status] += 1
-                if not ok:
-                    res.fail(blame(ops, source, k, way, kind), case, '%s on %s: %s' % (text, source, detail))
+                res.outcomes['%s: pulls = model %+d' % (way, dpulls)] += 1
         if j == 0 and len(ops) == 2 and len(res.samples) < 3 and not ops[-1].search:
             m = run_model(ops, 'ints', 3, 'raw')
             if m[0] == 'v':
